@@ -671,6 +671,14 @@ let judge_valid f =
   end;
   out_line id "valid" (!vs @ ["C16", !c16; "C17", !c17]) ""
 
+(* ---------- comparison with encoding/json (observed on the Go side; nothing to model) ---------- *)
+let judge_stdcmp f =
+  let id = get f "id" in
+  let v = if get f "status" <> "ok" then F ("panic in the embedded codec (" ^ get f "what" ^ ")")
+    else if get f "same" = "1" then P
+    else F ("the embedded codec and encoding/json differ (" ^ get f "what" ^ ": " ^ unhex (get f "in") ^ ")") in
+  out_line id "stdcmp" ["C17", v; "C04", (if get f "status" = "ok" then P else F "panic")] ""
+
 (* ---------- cli ---------- *)
 let judge_cli f =
   let id = get f "id" in
@@ -896,6 +904,7 @@ let () =
            | "merge4" -> judge_merge4 f
            | "merge34" -> judge_merge3 ~v4:true f
            | "create4" -> judge_create ~v4:true f
+           | "stdcmp" -> judge_stdcmp f
            | "equal4" -> judge_equal4 f
            | "hcall" -> judge_hcall f
            | "history" -> judge_history f
